@@ -448,6 +448,26 @@ memtype_valid(const RegP *p, const RPFrame *f)
             (p->memory.type == RP_MEMTYPE_8 && opt16 == false));
 }
 
+/* The channel's source as regp_recv() reads it: The octets the channel
+ * delivered in the current call are counted. Neither the sink nor the frame
+ * block can tell that - a length prefix never gets there, and the sink may
+ * have failed to get a block. */
+typedef struct {
+    Source *source;
+    size_t octets;
+} RecvTap;
+
+static ssize_t
+recv_tap_run(void *driver, void *buf, size_t n)
+{
+    RecvTap *tap = driver;
+    const ssize_t rc = source_get_chunk_atmost(tap->source, buf, n);
+    if (rc > 0) {
+        tap->octets += (size_t)rc;
+    }
+    return rc;
+}
+
 static void
 setup_buffer(ByteBuffer *b)
 {
@@ -874,15 +894,20 @@ regp_recv(RegP *p, RPMaybeFrame *mf)
              * and nothing tells where it ends. */
             return -EPIPE;
         }
-        const ssize_t rc = lenp_decode_source_to_sink(&p->ep.source, &recv);
+        RecvTap tap = { .source = &p->ep.source, .octets = 0u };
+        Source channel = CHUNK_SOURCE_INIT(recv_tap_run, &tap);
+        const ssize_t rc = lenp_decode_source_to_sink(&channel, &recv);
         if (rc < 0) {
+            if (tap.octets > 0u) {
+                /* Part of a frame was taken from the channel, be it only an
+                 * octet of its length prefix. What the channel delivers next
+                 * is the rest of it, not a length prefix: There is no way
+                 * back into step on this channel. */
+                p->ep.desync = true;
+            }
             /* Channel error: the caller gets no frame, so the block the sink
              * may have allocated has to be released here. */
             if (cs.buffer.data != NULL) {
-                /* Part of the frame was received. What the channel delivers
-                 * next is the rest of it, not a length prefix: There is no
-                 * way back into step on this channel. */
-                p->ep.desync = true;
                 block_free(p->alloc, cs.buffer.data);
             }
             return rc;
